@@ -362,7 +362,9 @@ def run_pty(ctx, work, line):
 
 
 def same(a, b, with_stdout=True, with_status=True):
-    return (a["argv"] == b["argv"] and a["files"] == b["files"] and (not with_stdout or a["stdout"] == b["stdout"])
+    # the stages of a pipeline run concurrently: the order of their trace records is a race, so records are compared
+    # as a multiset (the order of list segments is C03's subject)
+    return (sorted(a["argv"]) == sorted(b["argv"]) and a["files"] == b["files"] and (not with_stdout or a["stdout"] == b["stdout"])
             and (not with_status or a["status"] == b["status"]))
 
 
@@ -382,7 +384,7 @@ def layer2(ctx, res, known, V, work, lines):
              "prog @ 'a b' \"c d\" e", "prog @ \"a\\\"b\" ; prog @x3 || prog @ z", "prog @o hello > out.txt", "prog @ $V \"$V\" '$V'",
              "prog @ a{1,2}b", "prog @x1 && prog @ no ; prog @ yes", "prog @o a | prog @r", "prog @   spaced    out  ",
              "prog @ a # comment", "prog @ $(prog @o q)", "(prog @ a;prog @ b)", "prog @ x='a b'", "prog @ 'a'b", "prog @x7",
-             "prog @ a\\|b \\& \\> x", "prog @ a!b !"]
+             "prog @ a\\|b \\& \\> x", "prog @ a!b !", "prog @ a\\ "]
     pick = fixed + pool[:(700 if ctx.thorough else 110)]
     pick = [l.replace("prog", hp) for l in pick]
     pm = C.write_cases("c16_l2.txt", [C.case("law", l) for l in pick])
@@ -415,6 +417,20 @@ def layer2(ctx, res, known, V, work, lines):
         for e in ENT:
             if same(o[e], o["c"]):
                 st["same_as_c"] = st.get("same_as_c", 0) + 1
+                continue
+            ls = l.rstrip(" \t")
+            if ls != l and (len(ls) - len(ls.rstrip("\\"))) % 2 == 1:
+                # class esc-trailing-blank-script: the script path trims the line with a plain trim(); recorded behaviour =
+                # what -c does with the trimmed line
+                if "esc-trailing-blank-script" not in known:
+                    V("oracle", "L2", l, o["c"], o[e], True, "class esc-trailing-blank-script is not listed in known_findings.txt")
+                elif same(o[e], run_entry(ctx, work, ls, "c")):
+                    res.known("esc-trailing-blank-script", "class=esc-trailing-blank-script e.g. %s line %r: argv %r, with -c: %r" % (
+                        e, short, o[e]["argv"], o["c"]["argv"]))
+                    st["esc-trailing-blank-script"] = st.get("esc-trailing-blank-script", 0) + 1
+                else:
+                    V("oracle", "L2", l, {"entry": "-c of the trimmed line", **run_entry(ctx, work, ls, "c")}, {"entry": e, **o[e]}, True,
+                      "an escaped trailing blank: differs from -c, and not in the way recorded for class esc-trailing-blank-script")
                 continue
             if not tb:
                 V("oracle", "L2", l, {"entry": "-c", **o["c"]}, {"entry": e, **o[e]}, True,
